@@ -60,6 +60,11 @@ def check_pair(opt, cfg, cfg2, p1, p2, t1, t2, g, viol):
     if opt in ('disable_comments', 'decimals', 'report', 'ns_dict', 'sink'):
         if skeleton(p1) != skeleton(p2):
             bad("set of shapes / constraints / cardinalities changed")
+        if opt == 'disable_comments':
+            ex = lambda p: [(sh['label'], sh.get('example'), [(st['inv'], st['prop'], [c['example'] for c in st['comments'] if 'example' in c]) for st in sh['stmts']])
+                            for sh in p['shapes']]
+            if ex(p1) != ex(p2):
+                bad("the example annotations (// rdfs:comment ...) changed")
         if opt == 'sink' and t1 != t2:
             bad("file output differs from string output")
         return
@@ -212,6 +217,11 @@ def run(ctx):
         for opt in OPTIONS:
             if opt == 'allow_opt' and not cfg['all_compliant']:
                 cfg = dict(cfg, all_compliant=True)
+            if opt == 'disable_comments':
+                # constraint / shape examples are annotations of the schema, not comments: they stay when comments are disabled
+                cfg = dict(cfg, examples=rng.choice([None, 'cons', 'all', 'shape']))
+            elif cfg.get('examples'):
+                cfg = dict(cfg, examples=None)
             c2 = variant(rng, cfg, opt)
             pairs.append((opt, len(cases), len(cases) + 1))
             cases.append((g, cfg))
@@ -244,6 +254,23 @@ def run(ctx):
                 t2 = open(path).read()
             nontriv += bool(r1[1]['shapes'] and any(len(s['stmts']) > 1 for s in r1[1]['shapes']))
             check_pair(opt, cfg, cfg2, r1[1], r2[1], r1[2], t2, g, viol)
+            if opt == 'disable_or' and cfg['inverse'] and not cfg['remove_empty']:
+                # the SHACL rendering of the pair: a disjunction keeps the direction (and the path) of the single constraint it replaces
+                import shacl_text, collections
+                from shexer import consts as C_
+                sa = impl.run_shaper(to_nt(g), cfg, output_format=C_.SHACL_TURTLE)
+                sb = impl.run_shaper(to_nt(g), cfg2, output_format=C_.SHACL_TURTLE)
+                stats["shacl_or_pairs"] = stats.get("shacl_or_pairs", 0) + 1
+                if sa[0] != 'ok' or sb[0] != 'ok':
+                    viol.append({"what": "option disable_or: no SHACL result", "outcomes": [list(sa[:3])[:2], list(sb[:3])[:2]], **pipeline.case_json(g, cfg)})
+                else:
+                    da = {x['iri']: collections.Counter((d_['inverse'], d_['path']) for d_ in x['props']) for x in shacl_text.parse(sa[1])['shapes']}
+                    db = {x['iri']: collections.Counter((d_['inverse'], d_['path']) for d_ in x['props']) for x in shacl_text.parse(sb[1])['shapes']}
+                    if da != db:
+                        lab = next(l for l in set(da) | set(db) if da.get(l) != db.get(l))
+                        viol.append({"what": "option disable_or: in SHACL the directions / paths of the property shapes of %s change" % lab,
+                                     "one": sorted(map(str, (da.get(lab) or {}).elements())), "other": sorted(map(str, (db.get(lab) or {}).elements())),
+                                     **pipeline.case_json(g, cfg), "cfg_variant": {k: v for k, v in cfg2.items() if cfg.get(k) != v}})
             stats["ratio_texts_checked"] += ratio_texts(r1[1], cfg, viol, g)
         # output sink on a result longer than the serializer's 5000-line buffer
         from shexer.shaper import Shaper
